@@ -459,7 +459,7 @@ func genSkInput(r *Rng, nfn *int, known []*fdef, budget int) (skInput, []*fdef) 
 
 // ------------------------------------------------------------------ running sessions
 
-const prelude = "func deep(n){deep(n+1)}; acc=0; zz=0"
+const prelude = `func deep(n){deep(n+1)}; acc=0; zz=0; func id1(x){x}; idl = x => x; func dec1(x){x-1}; mobj = {"f": x => x*2}`
 
 // number of on/off differences outside the known constructs seen so far: after a few dozen the
 // exploration stops early (the violation is established; under a broken tree each one may cost a deadline)
@@ -719,6 +719,50 @@ func (g *vgen) intExpr(vars []string, d int) string {
 	}
 }
 
+// an infix expression whose LEFT operand is the variable v and whose RIGHT operand is a call (named function,
+// lambda variable, builtin, method style, nested) with an argument that assigns / increments v: the left
+// operand must keep the value it had (the call's arguments are evaluated in the caller's frame)
+func (g *vgen) leftThenAssign(v string, vars []string) string {
+	var arg string
+	switch g.r.Intn(5) {
+	case 0:
+		arg = v + " = " + g.intExpr(vars, 1)
+	case 1:
+		arg = v + " = " + v + " + " + fmt.Sprint(1+g.r.Intn(12))
+	case 2:
+		arg = v + "++"
+	case 3:
+		arg = "--" + v
+	default:
+		arg = v + " = " + v + " * 2 - 1"
+	}
+	var call string
+	switch g.r.Intn(8) {
+	case 0:
+		call = "id1(" + arg + ")"
+	case 1:
+		call = "idl(" + arg + ")"
+	case 2:
+		call = "dec1(" + arg + ")"
+	case 3:
+		call = "len([" + arg + ", 0])"
+	case 4:
+		call = "first([" + arg + "])"
+	case 5:
+		call = "mobj.f(" + arg + ")"
+	case 6:
+		call = "id1(idl(" + arg + "))"
+	default:
+		call = "(1 + dec1(id1(" + arg + ")))"
+	}
+	ops := []string{"+", "-", "*", "%", "==", "<", ">=", "!="}
+	op := ops[g.r.Intn(len(ops))]
+	if op == "%" {
+		call = "(7 + " + call + "*0)" // keep the modulus non zero; the argument is still evaluated
+	}
+	return v + " " + op + " " + call
+}
+
 func (g *vgen) cond(vars []string) string {
 	ops := []string{"<", ">", "==", "!=", "<=", ">="}
 	return g.intExpr(vars, 1) + ops[g.r.Intn(len(ops))] + g.intExpr(vars, 1)
@@ -761,6 +805,8 @@ func (g *vgen) stmts(fn string, ints, loops []string, strs []string, d, n int, i
 			a := g.stmts(fn, ints, loops, strs, d, 1, inLoop)
 			b := g.stmts(fn, ints, loops, strs, d, 1, inLoop)
 			out = append(out, "if "+g.cond(all)+" {"+strings.Join(a, "; ")+"} else {"+strings.Join(b, "; ")+"}")
+		case k < 62 && len(all) > 0:
+			out = append(out, "println("+g.leftThenAssign(all[g.r.Intn(len(all))], all)+")")
 		case k < 70:
 			out = append(out, "println("+g.intExpr(all, 2)+")")
 		case k < 76 && len(strs) > 0:
@@ -841,7 +887,9 @@ func (g *vgen) input() string {
 	}
 	n := 1 + g.r.Intn(3)
 	for i := 0; i < n; i++ {
-		switch g.r.Intn(4) {
+		switch g.r.Intn(5) {
+		case 4:
+			parts = append(parts, fmt.Sprintf("for tv0=%d {println(%s)}", 1+g.r.Intn(4), g.leftThenAssign("tv0", []string{"tv0"})))
 		case 0:
 			parts = append(parts, "println("+g.call(nil)+")")
 		case 1:
@@ -893,6 +941,8 @@ var fixedCorpus = [][]string{
 	{`func mk(a,b){()=>a+b};mk(1,2)()`},
 	{`func n(){5};func f(n){n()};f(1)`}, {`m={"n":4};func f(n){m.n+n};f(1)`}, {`m={"n":4};func f(n){del(m.n);m};f(1)`},
 	{`func f(n){{n:print("a"), n:print("b")}};f(1)`}, {`for n=0:2{println({n:1, n:2})}`},
+	{`func f(n) { n + idl(n = 10) }; f(1)`}, {`func f(n){ n * dec1(n = n - 1) }; f(5)`}, {`for i = 3 { println(i * id1(i = i + 10)) }`},
+	{`func f(n){ n - len([n = 7, 0]) + (n % (3 + mobj.f(n = n + 2))) }; f(20)`},
 	{`for i=5 { if i==3 {break}; i }`}, {`for i=4 { if i==3 {continue}; i }`}, {`func f(n){n + (n=5)};f(1)`}, {`func f(n){del(n);5};f(1)`},
 	{`func f(n){quote(n+1)};f(1)`}, {`for i=5 { i=i+1; print(i) }`}, {`for i=3 { r=catch(for j=3 { 1/0 }); print(i) }`},
 	{`func f(n){ for i=n { catch(for j=2 { error("boom") }) }; n }; f(3)`}, {`catch(for j=3 { 1/0 })`, `for a=2{for b=2{for c=2{for d=2{for e=2{for f=2{for g=2{for h=2{println(a+h)}}}}}}}}`},
